@@ -356,6 +356,14 @@ def c_hset_insert(ex, st, callee, a):
     return [(None, Not(was))]
 
 
+@contract(r'^HashSet::<std::string::String>::clear$')
+def c_hset_clear(ex, st, callee, a): upd(st, a[0], ('hset', K(S, False))); return [(None, UNIT)]
+
+
+@contract(r'^HashMap::<std::string::String, Box<dyn erased_serde::Serialize>>::clear$')
+def c_hmap_clear(ex, st, callee, a): upd(st, a[0], ('hmap', K(S, False), K(S, JV.Null), ())); return [(None, UNIT)]
+
+
 @contract(r'^HashSet::<std::string::String>::contains::<')
 def c_hset_contains(ex, st, callee, a): return [(None, Select(deref(st, a[0])[1], as_str(st, a[1])))]
 
@@ -417,6 +425,12 @@ def c_hmap_extend(ex, st, callee, a):
 def c_vmap_insert(ex, st, callee, a):
     m = deref(st, a[0]); k = as_str(st, a[1])
     upd(st, a[0], ('vmap', Store(m[1], k, True), tuple(e for e in m[2]) + ((k, a[2]),))); return [(None, NONE)]
+
+
+@contract(r'^HashMap::<std::string::String, Box<dyn for<.*>>::remove::<', r'^HashMap::<std::string::String, serde_json::Value>::remove::<')
+def c_vmap_remove(ex, st, callee, a):
+    m = deref(st, a[0]); k = as_str(st, a[1])
+    upd(st, a[0], ('vmap', Store(m[1], k, False), m[2])); return [(None, NONE)]       # the removed value is dropped by the callers this contract serves
 
 
 @contract(r'^HashMap::<std::string::String, Box<dyn for<.*>>::entry$')
